@@ -78,6 +78,10 @@ def run(chk, tier):
         check_writer(chk, prog, prog.config)
         check_form(chk, prog, prog.config)
         check_overrides(chk, prog, prog.config)
+        if grammar.impl_of(prog, grammar.DEC, MODEL["PortableRegistry"]) is not None:
+            # "an independent encoder AND decoder agree with the library": the library's reader accepts exactly the writer's grammar
+            from . import c07
+            c07.check_roundtrip(chk, prog, prog.config)
     n = len({i["construct"] for i in chk.instances if i["rule"] == "R6.1"})
     chk.floor("R6.1", n, 17, "17 model types")
     n = len({i["construct"] for i in chk.instances if i["rule"] == "R6.2"})
